@@ -181,14 +181,14 @@ package redis
 //@ func (*Server).handleMessage
 //@ requires srvOK(server) && conn != nil && msg != nil && conn.Context != nil && span_depth >= 0 && root_open == 1
 //@ requires {C08} server.userCommandHandler != nil ==> true
-//@ assigns proto.Array.index, conn.id, conn.authrized, conn.username, conn.password, conn.hasPassword, comp:MD|Str|Str, comp:MV|Str|Str, H_*, A_calls, A_fail, span_depth, authed, alloc
+//@ assigns proto.Array.index, conn.id, conn.authrized, conn.username, conn.password, conn.hasPassword, comp:MD|Str|Str, comp:MV|Str|Str, H_*, A_calls, A_fail, span_depth, authed, clock_now, alloc
 //@ ensures {C20} span_depth == old(span_depth)
 //@ ensures {C08} conn.authrized && !old(conn.authrized) ==> authed
 //@ ensures {C08} old(authed) ==> authed
 
 //@ func (*Server).handleArrayMessage
 //@ requires srvOK(server) && conn != nil && arrayMsg != nil && conn.Context != nil && span_depth >= 0 && root_open == 1
-//@ assigns proto.Array.index, conn.id, conn.authrized, conn.username, conn.password, conn.hasPassword, comp:MD|Str|Str, comp:MV|Str|Str, H_*, A_calls, A_fail, span_depth, authed, alloc
+//@ assigns proto.Array.index, conn.id, conn.authrized, conn.username, conn.password, conn.hasPassword, comp:MD|Str|Str, comp:MV|Str|Str, H_*, A_calls, A_fail, span_depth, authed, clock_now, alloc
 //@ ensures {C20} span_depth == old(span_depth)
 //@ ensures {C08} conn.authrized && !old(conn.authrized) ==> authed
 //@ ensures {C08} old(authed) ==> authed
@@ -232,7 +232,7 @@ package redis
 //@ requires conn != nil && args != nil && conn.Context != nil && span_depth >= 1 && root_open == 1
 //@ requires srvOK(server) && server.userCommandHandler != nil
 //@ requires {C08} conn.authrized || isAuthCmd(cmd)
-//@ assigns proto.Array.index, conn.id, conn.authrized, conn.username, conn.password, conn.hasPassword, comp:MD|Str|Str, comp:MV|Str|Str, H_*, A_calls, A_fail, span_depth, authed, alloc
+//@ assigns proto.Array.index, conn.id, conn.authrized, conn.username, conn.password, conn.hasPassword, comp:MD|Str|Str, comp:MV|Str|Str, H_*, A_calls, A_fail, span_depth, authed, clock_now, alloc
 //@ ensures {C20} span_depth == old(span_depth)
 //@ ensures {C08} conn.authrized && !old(conn.authrized) ==> authed
 //@ ensures {C08} old(authed) ==> authed
@@ -245,7 +245,7 @@ package redis
 
 //@ func (*Server).executeCommand
 //@ requires srvOK(server) && conn != nil && args != nil && conn.Context != nil && span_depth >= 0 && root_open == 1
-//@ assigns proto.Array.index, conn.id, conn.authrized, conn.username, conn.password, conn.hasPassword, comp:MD|Str|Str, comp:MV|Str|Str, H_*, A_calls, A_fail, span_depth, authed, alloc
+//@ assigns proto.Array.index, conn.id, conn.authrized, conn.username, conn.password, conn.hasPassword, comp:MD|Str|Str, comp:MV|Str|Str, H_*, A_calls, A_fail, span_depth, authed, clock_now, alloc
 //@ ensures {C20} span_depth == old(span_depth)
 //@ ensures {C08} conn.authrized && !old(conn.authrized) ==> authed
 //@ ensures {C08} old(authed) ==> authed
@@ -433,9 +433,14 @@ package redis
 //@ ensures {C05} old(oneOpt(args, "KEEPTTL")) ==> err == nil && !result0.NX && !result0.XX && !result0.GET && result0.KEEPTTL && result0.EX == 0 && result0.PX == 0
 //@ ensures {C05} old(oneOptN(args, "EX")) && 1 <= old(argI(args, 1)) && old(argI(args, 1)) <= maxExpireSeconds ==> err == nil && result0.EX == old(argI(args, 1)) * 1000000000 && result0.PX == 0 && !result0.NX && !result0.XX && !result0.GET && !result0.KEEPTTL
 //@ ensures {C05} old(oneOptN(args, "PX")) && 1 <= old(argI(args, 1)) && old(argI(args, 1)) <= maxExpireMilliseconds ==> err == nil && result0.PX == old(argI(args, 1)) * 1000000 && result0.EX == 0 && !result0.NX && !result0.XX && !result0.GET && !result0.KEEPTTL
+//@ ensures {C05} old(oneOptN(args, "EXAT")) && 1 <= old(argI(args, 1)) ==> err == nil && result0.EXAT == tUnix(old(argI(args, 1)), 0) && isZeroTime(result0.PXAT) && result0.EX == 0 && result0.PX == 0 && !result0.NX && !result0.XX && !result0.GET && !result0.KEEPTTL
+//@ ensures {C05} old(oneOptN(args, "PXAT")) && 1 <= old(argI(args, 1)) ==> err == nil && result0.PXAT == tUnixMilli(old(argI(args, 1))) && isZeroTime(result0.EXAT) && result0.EX == 0 && result0.PX == 0 && !result0.NX && !result0.XX && !result0.GET && !result0.KEEPTTL
 //@ ensures old(args.index) <= args.index
 //@ loop 0
 //@   invariant old(args.index) <= args.index && args.index <= len(args.msgs)
+//@   invariant {C05} old(oneOptN(args, "EXAT")) && 1 <= old(argI(args, 1)) && args.index == old(args.index) + 2 ==> opt.EXAT == tUnix(old(argI(args, 1)), 0) && isZeroTime(opt.PXAT) && opt.EX == 0 && opt.PX == 0 && !opt.NX && !opt.XX && !opt.GET && !opt.KEEPTTL
+//@   invariant {C05} old(oneOptN(args, "PXAT")) && 1 <= old(argI(args, 1)) && args.index == old(args.index) + 2 ==> opt.PXAT == tUnixMilli(old(argI(args, 1))) && isZeroTime(opt.EXAT) && opt.EX == 0 && opt.PX == 0 && !opt.NX && !opt.XX && !opt.GET && !opt.KEEPTTL
+//@   invariant {C05} old(oneOptN(args, "EXAT")) || old(oneOptN(args, "PXAT")) ==> args.index == old(args.index) || args.index == old(args.index) + 2
 //@   invariant {C05} args.index == old(args.index) ==> !opt.NX && !opt.XX && !opt.GET && !opt.KEEPTTL && opt.EX == 0 && opt.PX == 0 && isZeroTime(opt.EXAT) && isZeroTime(opt.PXAT)
 //@   invariant {C05} old(oneOpt(args, "NX")) && args.index == old(args.index) + 1 ==> opt.NX && !opt.XX && !opt.GET && !opt.KEEPTTL && opt.EX == 0 && opt.PX == 0
 //@   invariant {C05} old(oneOpt(args, "XX")) && args.index == old(args.index) + 1 ==> !opt.NX && opt.XX && !opt.GET && !opt.KEEPTTL && opt.EX == 0 && opt.PX == 0
@@ -634,36 +639,79 @@ package redis
 //@   invariant {C20} span_depth == old(span_depth)
 //@   decreases len(arrayMsg.msgs) - arrayMsg.index + (nextMsg != nil ? 1 : 0)
 
+// allPresent(m): m is an array reply whose elements are all present (what a Redis-like primitive returns); a handler returns its reply
+// unread (index 0: assumed in the handler interface contracts)
+//@ spec func allPresent(m ref) bool = m != nil && m.Type == proto.ArrayMessage && m.array != nil && (forall k int :: 0 <= k && k < len(m.array.msgs) ==> m.array.msgs[k] != nil)
+
 //@ executor "SCARD"
+//@ ensures {C12} err == nil && H_calls == old(H_calls) + 1 && allPresent(H_res[old(H_calls)]) ==> intReply(result0, len(H_res[old(H_calls)].array.msgs))
 //@ ensures {C12} H_calls == old(H_calls) + 1 ==> H_m[old(H_calls)] == "SMembers" && H_SMembers_key[old(H_calls)] == old(argS(args, 0)) && H_conn[old(H_calls)] == conn
 //@ ensures {C12} err == nil && H_calls == old(H_calls) + 1 ==> result0 != nil && result0.Type == proto.IntegerMessage
 //@ ensures {C10} !old(strArg(args, 0)) ==> err != nil && H_calls == old(H_calls)
 //@ loop 0
 //@   invariant arrayMsg != nil && 0 <= memberCount && memberCount + (nextMsg != nil ? 1 : 0) <= arrayMsg.index
+//@   invariant {C12} retMsg == H_res[old(H_calls)] && H_calls == old(H_calls) + 1 && retMsg != nil && retMsg.array == arrayMsg && retMsg.Type == proto.ArrayMessage
+//@   invariant {C12} allPresent(retMsg) ==> memberCount + (nextMsg != nil ? 1 : 0) == arrayMsg.index
+//@   invariant {C12} allPresent(retMsg) && nextMsg == nil ==> arrayMsg.index == len(arrayMsg.msgs)
 //@   decreases len(arrayMsg.msgs) - arrayMsg.index + (nextMsg != nil ? 1 : 0)
 
 //@ executor "ZCARD"
+//@ ensures {C12} err == nil && H_calls == old(H_calls) + 1 && allPresent(H_res[old(H_calls)]) ==> intReply(result0, len(H_res[old(H_calls)].array.msgs))
+//@ ensures {C12} H_calls == old(H_calls) + 1 ==> H_ZRange_start[old(H_calls)] == 0 && H_ZRange_stop[old(H_calls)] == -1 && !H_ZRange_opt_WITHSCORES[old(H_calls)] && !H_ZRange_opt_REV[old(H_calls)] && !H_ZRange_opt_BYSCORE[old(H_calls)] && H_ZRange_opt_Offset[old(H_calls)] == 0 && H_ZRange_opt_Count[old(H_calls)] == -1
 //@ ensures {C12} H_calls == old(H_calls) + 1 ==> H_m[old(H_calls)] == "ZRange" && H_ZRange_key[old(H_calls)] == old(argS(args, 0)) && H_conn[old(H_calls)] == conn
 //@ ensures {C12} err == nil && H_calls == old(H_calls) + 1 ==> result0 != nil && result0.Type == proto.IntegerMessage
 //@ ensures {C10} !old(strArg(args, 0)) ==> err != nil && H_calls == old(H_calls)
 //@ loop 0
 //@   invariant arrayMsg != nil && 0 <= memberCount && memberCount + (nextMsg != nil ? 1 : 0) <= arrayMsg.index
+//@   invariant {C12} retMsg == H_res[old(H_calls)] && H_calls == old(H_calls) + 1 && retMsg != nil && retMsg.array == arrayMsg && retMsg.Type == proto.ArrayMessage
+//@   invariant {C12} allPresent(retMsg) ==> memberCount + (nextMsg != nil ? 1 : 0) == arrayMsg.index
+//@   invariant {C12} allPresent(retMsg) && nextMsg == nil ==> arrayMsg.index == len(arrayMsg.msgs)
 //@   decreases len(arrayMsg.msgs) - arrayMsg.index + (nextMsg != nil ? 1 : 0)
 
+// allStr(m): an array reply of non-null strings
+//@ spec func allStr(m ref) bool = m != nil && m.Type == proto.ArrayMessage && m.array != nil && (forall k int :: 0 <= k && k < len(m.array.msgs) ==> m.array.msgs[k] != nil && isStr(m.array.msgs[k].Type) && m.array.msgs[k].bytes != nil)
+
 //@ executor "SISMEMBER"
+//@ ensures {C12} H_calls == old(H_calls) + 1 ==> H_m[old(H_calls)] == "SMembers" && H_SMembers_key[old(H_calls)] == old(argS(args, 0)) && H_conn[old(H_calls)] == conn
+//@ ensures {C10} !old(strArg(args, 0)) || !old(strArg(args, 1)) ==> err != nil && H_calls == old(H_calls)
+// 1 exactly when one of the members the primitive returned equals the argument, byte for byte
+//@ ensures {C12} err == nil && H_calls == old(H_calls) + 1 && allStr(H_res[old(H_calls)]) && !intReply(result0, 1) ==> forall k int :: 0 <= k && k < len(H_res[old(H_calls)].array.msgs) ==> string(H_res[old(H_calls)].array.msgs[k].bytes) != old(argS(args, 1))
+//@ ensures {C12} err == nil && H_calls == old(H_calls) + 1 ==> intReply(result0, 1) || intReply(result0, 0)
+//@ ensures {C12} err == nil && H_calls == old(H_calls) + 1 && allStr(H_res[old(H_calls)]) && !intReply(result0, 0) ==> exists k int :: 0 <= k && k < len(H_res[old(H_calls)].array.msgs) && string(H_res[old(H_calls)].array.msgs[k].bytes) == old(argS(args, 1))
 //@ loop 0
 //@   invariant arrayMsg != nil
+//@   invariant {C12} retMsg == H_res[old(H_calls)] && H_calls == old(H_calls) + 1 && retMsg != nil && retMsg.array == arrayMsg && retMsg.Type == proto.ArrayMessage && member == old(argS(args, 1))
+//@   invariant {C12} allStr(retMsg) && nextMsg == nil ==> arrayMsg.index == len(arrayMsg.msgs)
+//@   invariant {C12} allStr(retMsg) && nextMsg != nil ==> 1 <= arrayMsg.index && nextMsg == arrayMsg.msgs[arrayMsg.index - 1] && isStr(nextMsg.Type) && nextMsg.bytes != nil && witness(arrayMsg.index - 1)
+//@   invariant {C12} allStr(retMsg) ==> forall k int :: 0 <= k && k < arrayMsg.index - (nextMsg != nil ? 1 : 0) ==> string(arrayMsg.msgs[k].bytes) != member
 //@   decreases len(arrayMsg.msgs) - arrayMsg.index + (nextMsg != nil ? 1 : 0)
 
 // ZADD without option words: key, then score/member pairs. A trailing score without member (or any odd tail) is rejected before the handler.
 //@ spec func isZaddOpt(s string) bool = toUpper(s) == "NX" || toUpper(s) == "XX" || toUpper(s) == "GT" || toUpper(s) == "LT" || toUpper(s) == "CH" || toUpper(s) == "INCR"
 //@ spec func noNilArgs(a ref) bool = forall k int :: 0 <= k && k < len(a.msgs) ==> a.msgs[k] != nil
+//@ spec func zaddFlagAt1(a ref, w string) bool = strArg(a, 1) && toUpper(argS(a, 1)) == w && strArg(a, 2) && !isZaddOpt(argS(a, 2))
 //@ executor "ZADD"
+// option flags: none, or exactly the one flag word given between key and first score (combinations are not specified here)
+//@ ensures {C05} old(strArg(args, 0) && strArg(args, 1) && !isZaddOpt(argS(args, 1))) && H_calls == old(H_calls) + 1 ==> !H_ZAdd_opt_NX[old(H_calls)] && !H_ZAdd_opt_XX[old(H_calls)] && !H_ZAdd_opt_GT[old(H_calls)] && !H_ZAdd_opt_LT[old(H_calls)] && !H_ZAdd_opt_CH[old(H_calls)] && !H_ZAdd_opt_INCR[old(H_calls)]
+//@ ensures {C05} old(strArg(args, 0) && zaddFlagAt1(args, "NX")) && H_calls == old(H_calls) + 1 ==> H_ZAdd_opt_NX[old(H_calls)] && !H_ZAdd_opt_XX[old(H_calls)] && !H_ZAdd_opt_GT[old(H_calls)] && !H_ZAdd_opt_LT[old(H_calls)] && !H_ZAdd_opt_CH[old(H_calls)] && !H_ZAdd_opt_INCR[old(H_calls)]
+//@ ensures {C05} old(strArg(args, 0) && zaddFlagAt1(args, "XX")) && H_calls == old(H_calls) + 1 ==> !H_ZAdd_opt_NX[old(H_calls)] && H_ZAdd_opt_XX[old(H_calls)] && !H_ZAdd_opt_GT[old(H_calls)] && !H_ZAdd_opt_LT[old(H_calls)] && !H_ZAdd_opt_CH[old(H_calls)] && !H_ZAdd_opt_INCR[old(H_calls)]
+//@ ensures {C05} old(strArg(args, 0) && zaddFlagAt1(args, "GT")) && H_calls == old(H_calls) + 1 ==> !H_ZAdd_opt_NX[old(H_calls)] && !H_ZAdd_opt_XX[old(H_calls)] && H_ZAdd_opt_GT[old(H_calls)] && !H_ZAdd_opt_LT[old(H_calls)] && !H_ZAdd_opt_CH[old(H_calls)] && !H_ZAdd_opt_INCR[old(H_calls)]
+//@ ensures {C05} old(strArg(args, 0) && zaddFlagAt1(args, "LT")) && H_calls == old(H_calls) + 1 ==> !H_ZAdd_opt_NX[old(H_calls)] && !H_ZAdd_opt_XX[old(H_calls)] && !H_ZAdd_opt_GT[old(H_calls)] && H_ZAdd_opt_LT[old(H_calls)] && !H_ZAdd_opt_CH[old(H_calls)] && !H_ZAdd_opt_INCR[old(H_calls)]
+//@ ensures {C05} old(strArg(args, 0) && zaddFlagAt1(args, "CH")) && H_calls == old(H_calls) + 1 ==> !H_ZAdd_opt_NX[old(H_calls)] && !H_ZAdd_opt_XX[old(H_calls)] && !H_ZAdd_opt_GT[old(H_calls)] && !H_ZAdd_opt_LT[old(H_calls)] && H_ZAdd_opt_CH[old(H_calls)] && !H_ZAdd_opt_INCR[old(H_calls)]
+//@ ensures {C05} old(strArg(args, 0) && zaddFlagAt1(args, "INCR")) && H_calls == old(H_calls) + 1 ==> !H_ZAdd_opt_NX[old(H_calls)] && !H_ZAdd_opt_XX[old(H_calls)] && !H_ZAdd_opt_GT[old(H_calls)] && !H_ZAdd_opt_LT[old(H_calls)] && !H_ZAdd_opt_CH[old(H_calls)] && H_ZAdd_opt_INCR[old(H_calls)]
 //@ ensures {C05,C10} H_calls == old(H_calls) || H_calls == old(H_calls) + 1
 //@ ensures {C10} err != nil && H_calls == old(H_calls) || H_calls == old(H_calls) + 1
 //@ ensures {C10} old(strArg(args, 0) && strArg(args, 1) && !isZaddOpt(argS(args, 1)) && noNilArgs(args)) && H_calls == old(H_calls) + 1 ==> len(args.msgs) == old(args.index) + 1 + 2 * len(H_ZAdd_members[old(H_calls)]) && len(H_ZAdd_members[old(H_calls)]) >= 1
 //@ ensures {C05} H_calls == old(H_calls) + 1 ==> H_m[old(H_calls)] == "ZAdd" && H_conn[old(H_calls)] == conn && H_ZAdd_key[old(H_calls)] == old(argS(args, 0)) && result0 == H_res[old(H_calls)] && err == H_err[old(H_calls)]
 //@ loop 0
+//@   invariant {C05} err == nil ==> args.index >= old(args.index) + 2
+//@   invariant {C05} err == nil && args.index == old(args.index) + 2 ==> !opt.NX && !opt.XX && !opt.GT && !opt.LT && !opt.CH && !opt.INCR && param == old(argS(args, 1))
+//@   invariant {C05} old(strArg(args, 0) && zaddFlagAt1(args, "NX")) ==> err == nil && ((args.index == old(args.index) + 2) || (args.index == old(args.index) + 3 && param == old(argS(args, 2)) && opt.NX && !opt.XX && !opt.GT && !opt.LT && !opt.CH && !opt.INCR))
+//@   invariant {C05} old(strArg(args, 0) && zaddFlagAt1(args, "XX")) ==> err == nil && ((args.index == old(args.index) + 2) || (args.index == old(args.index) + 3 && param == old(argS(args, 2)) && !opt.NX && opt.XX && !opt.GT && !opt.LT && !opt.CH && !opt.INCR))
+//@   invariant {C05} old(strArg(args, 0) && zaddFlagAt1(args, "GT")) ==> err == nil && ((args.index == old(args.index) + 2) || (args.index == old(args.index) + 3 && param == old(argS(args, 2)) && !opt.NX && !opt.XX && opt.GT && !opt.LT && !opt.CH && !opt.INCR))
+//@   invariant {C05} old(strArg(args, 0) && zaddFlagAt1(args, "LT")) ==> err == nil && ((args.index == old(args.index) + 2) || (args.index == old(args.index) + 3 && param == old(argS(args, 2)) && !opt.NX && !opt.XX && !opt.GT && opt.LT && !opt.CH && !opt.INCR))
+//@   invariant {C05} old(strArg(args, 0) && zaddFlagAt1(args, "CH")) ==> err == nil && ((args.index == old(args.index) + 2) || (args.index == old(args.index) + 3 && param == old(argS(args, 2)) && !opt.NX && !opt.XX && !opt.GT && !opt.LT && opt.CH && !opt.INCR))
+//@   invariant {C05} old(strArg(args, 0) && zaddFlagAt1(args, "INCR")) ==> err == nil && ((args.index == old(args.index) + 2) || (args.index == old(args.index) + 3 && param == old(argS(args, 2)) && !opt.NX && !opt.XX && !opt.GT && !opt.LT && !opt.CH && opt.INCR))
 //@   invariant {C03} args.index <= len(args.msgs)
 //@   invariant {C10} H_calls == old(H_calls) && key == old(argS(args, 0))
 //@   invariant {C10} old(strArg(args, 0) && strArg(args, 1) && !isZaddOpt(argS(args, 1))) ==> args.index == old(args.index) + 2 && param == old(argS(args, 1)) && err == nil
@@ -672,7 +720,6 @@ package redis
 //@   invariant {C03} args.index <= len(args.msgs) && fresh(members)
 //@   invariant {C10} H_calls == old(H_calls) && key == old(argS(args, 0))
 //@   invariant {C10} old(strArg(args, 0) && strArg(args, 1) && !isZaddOpt(argS(args, 1)) && noNilArgs(args)) ==> args.index == old(args.index) + 3 + 2 * len(members)
-//@   invariant {C10} forall k int :: 0 <= k && k < len(args.msgs) ==> args.msgs[k] == old(args.msgs[k])
 // the one instance of "no nil argument" that the exit of the loop needs, stated without a quantifier
 //@   invariant {C10} old(noNilArgs(args)) && args.index < len(args.msgs) ==> args.msgs[args.index] != nil
 //@   invariant {C10} err == nil
@@ -734,11 +781,14 @@ package redis
 //@ ensures {C05} old(strArg(args, 0)) && old(strArg(args, 1)) && old(strArg(args, 2)) && floatOK(old(argS(args, 1))) ==> H_calls == old(H_calls) + 1
 
 //@ executor "EXPIREAT"
+//@ ensures {C05} H_calls == old(H_calls) + 1 ==> H_Expire_opt_Time[old(H_calls)] == tUnix(old(argI(args, 1)), 0)
 //@ ensures {C05} H_calls == old(H_calls) + 1 ==> H_m[old(H_calls)] == "Expire" && H_conn[old(H_calls)] == conn && H_Expire_key[old(H_calls)] == old(argS(args, 0)) && result0 == H_res[old(H_calls)] && err == H_err[old(H_calls)]
 //@ ensures {C05,C10} H_calls == old(H_calls) || H_calls == old(H_calls) + 1
 //@ ensures {C10} !old(strArg(args, 0)) || !old(intArg(args, 1)) ==> err != nil && H_calls == old(H_calls)
 
 //@ executor "EXPIRE"
+// the expiry handed to the handler is "now + ttl seconds" (clock_now: what time.Now returned during this request)
+//@ ensures {C05} H_calls == old(H_calls) + 1 ==> H_Expire_opt_Time[old(H_calls)] == tAdd(clock_now, old(argI(args, 1)) * 1000000000)
 //@ ensures {C05} H_calls == old(H_calls) + 1 ==> H_m[old(H_calls)] == "Expire" && H_conn[old(H_calls)] == conn && H_Expire_key[old(H_calls)] == old(argS(args, 0)) && result0 == H_res[old(H_calls)] && err == H_err[old(H_calls)]
 //@ ensures {C05,C10} H_calls == old(H_calls) || H_calls == old(H_calls) + 1
 //@ ensures {C10} !old(strArg(args, 0)) || !old(intArg(args, 1)) || old(argI(args, 1)) > 9223372036 || old(argI(args, 1)) < -9223372036 ==> err != nil && H_calls == old(H_calls)
@@ -752,6 +802,9 @@ package redis
 //@ ensures {C05} old(strArg(args, 0)) && old(strArg(args, 1)) && !old(hasArg(args, 2)) ==> H_calls == old(H_calls) + 1 && !H_Set_opt_NX[old(H_calls)] && !H_Set_opt_XX[old(H_calls)] && !H_Set_opt_GET[old(H_calls)] && !H_Set_opt_KEEPTTL[old(H_calls)] && H_Set_opt_EX[old(H_calls)] == 0 && H_Set_opt_PX[old(H_calls)] == 0
 //@ ensures {C05} old(strArg(args, 0) && strArg(args, 1) && len(args.msgs) == args.index + 4 && strArg(args, 2) && toUpper(argS(args, 2)) == "EX" && intArg(args, 3)) && 1 <= old(argI(args, 3)) && old(argI(args, 3)) <= maxExpireSeconds ==> H_calls == old(H_calls) + 1 && H_Set_opt_EX[old(H_calls)] == old(argI(args, 3)) * 1000000000 && H_Set_opt_PX[old(H_calls)] == 0 && !H_Set_opt_NX[old(H_calls)] && !H_Set_opt_XX[old(H_calls)]
 //@ ensures {C05} old(strArg(args, 0) && strArg(args, 1) && len(args.msgs) == args.index + 4 && strArg(args, 2) && toUpper(argS(args, 2)) == "PX" && intArg(args, 3)) && 1 <= old(argI(args, 3)) && old(argI(args, 3)) <= maxExpireMilliseconds ==> H_calls == old(H_calls) + 1 && H_Set_opt_PX[old(H_calls)] == old(argI(args, 3)) * 1000000 && H_Set_opt_EX[old(H_calls)] == 0
+//@ ensures {C05} old(strArg(args, 0) && strArg(args, 1) && len(args.msgs) == args.index + 4 && strArg(args, 2) && toUpper(argS(args, 2)) == "EXAT" && intArg(args, 3)) && 1 <= old(argI(args, 3)) ==> H_calls == old(H_calls) + 1 && H_Set_opt_EXAT[old(H_calls)] == tUnix(old(argI(args, 3)), 0) && isZeroTime(H_Set_opt_PXAT[old(H_calls)]) && H_Set_opt_EX[old(H_calls)] == 0 && H_Set_opt_PX[old(H_calls)] == 0
+//@ ensures {C05} old(strArg(args, 0) && strArg(args, 1) && len(args.msgs) == args.index + 4 && strArg(args, 2) && toUpper(argS(args, 2)) == "PXAT" && intArg(args, 3)) && 1 <= old(argI(args, 3)) ==> H_calls == old(H_calls) + 1 && H_Set_opt_PXAT[old(H_calls)] == tUnixMilli(old(argI(args, 3))) && isZeroTime(H_Set_opt_EXAT[old(H_calls)]) && H_Set_opt_EX[old(H_calls)] == 0 && H_Set_opt_PX[old(H_calls)] == 0
+//@ ensures {C10} H_calls == old(H_calls) + 1 ==> expN(H_Set_opt_EX[old(H_calls)], H_Set_opt_PX[old(H_calls)], H_Set_opt_EXAT[old(H_calls)], H_Set_opt_PXAT[old(H_calls)]) <= 1
 //@ ensures {C05} old(strArg(args, 0) && strArg(args, 1) && len(args.msgs) == args.index + 3 && strArg(args, 2) && toUpper(argS(args, 2)) == "NX") ==> H_calls == old(H_calls) + 1 && H_Set_opt_NX[old(H_calls)] && !H_Set_opt_XX[old(H_calls)] && !H_Set_opt_GET[old(H_calls)]
 //@ ensures {C05} old(strArg(args, 0) && strArg(args, 1) && len(args.msgs) == args.index + 3 && strArg(args, 2) && toUpper(argS(args, 2)) == "XX") ==> H_calls == old(H_calls) + 1 && !H_Set_opt_NX[old(H_calls)] && H_Set_opt_XX[old(H_calls)] && !H_Set_opt_GET[old(H_calls)]
 //@ ensures {C05} old(strArg(args, 0) && strArg(args, 1) && len(args.msgs) == args.index + 3 && strArg(args, 2) && toUpper(argS(args, 2)) == "GET") ==> H_calls == old(H_calls) + 1 && !H_Set_opt_NX[old(H_calls)] && !H_Set_opt_XX[old(H_calls)] && H_Set_opt_GET[old(H_calls)]
